@@ -312,6 +312,10 @@ func corpus() []core.Case {
 			if digestAlgos[i].stream == nil {
 				continue
 			}
+			// hidden input: pre-advanced seekable readers over 0, 1, 2, 3, 64, 65, 200 and 5000 bytes
+			for _, n := range []int{0, 1, 2, 3, 64, 65, 200, 5000} {
+				ops = append(ops, dgsLine(&digestAlgos[i], bigInput(n, n+i)))
+			}
 			// history: every failure mode × leftovers of 0, 1, 5, 64, 200 bytes, then same and other helpers
 			for _, mode := range failModes {
 				for _, k := range []int{0, 1, 5, 64, 200} {
@@ -339,6 +343,14 @@ func dgLine(a *digestAlgo, in []byte) string {
 
 func dghLine(a *digestAlgo, mode string, k int, in []byte) string {
 	return fmt.Sprintf("dgh %s %s %d %s %s", a.name, mode, k, hx(in), hx(a.sum(in)))
+}
+
+func dgsLine(a *digestAlgo, in []byte) string {
+	parts := []string{"dgs", a.name, hx(in)}
+	for _, k := range seekAdvances(len(in)) {
+		parts = append(parts, hx(a.sum(in[k:])))
+	}
+	return strings.Join(parts, " ")
 }
 
 func dgzLine(a *digestAlgo, n, seed int) string {
@@ -622,6 +634,14 @@ func genOp(r *core.Rand) string {
 	case 6:
 		return fmt.Sprintf("iprt %d", ipVal(r))
 	case 7:
+		if r.Chance(8) {
+			// hidden input: pre-advanced seekable readers
+			in := genBytes(r)
+			if r.Chance(20) {
+				in = bigInput([]int{511, 512, 513, 4095, 4096, 4097}[r.Intn(6)], r.Intn(100))
+			}
+			return dgsLine(&digestAlgos[r.Intn(6)], in)
+		}
 		if r.Chance(15) {
 			// history stream: failing call, then valid calls
 			k := []int{0, 1, 2, 3, 55, 56, 63, 64, 65, 127, 128, 129, 4095, 4096, 4097}[r.Intn(15)]
